@@ -79,7 +79,7 @@ def _absent_guard(P, b, bb, key, depth=0):
                 return "under !contains_key(same key)"
     # 2. inside a closure that only runs on the None outcome of such a lookup
     if b.is_closure:
-        par = P.bodies.get(b.parent)
+        par = (P.closure_parents(b) or [None])[0]
         if par is not None:
             for pbb, pt in par.calls():
                 last = (callee(pt) or "").rsplit("::", 1)[-1].split("<")[0]
